@@ -1814,9 +1814,103 @@ def rule_trivial_trait_set(out, tier):
             out.bad(rid, "IsTriviallySerializable<%s>" % spec[:70], rel, "the reference specialisation is gone or changed: types that are raw on the wire lose (or others gain) the memcpy path")
 
 
+_SIGNED_BITS = {"int8_t": 8, "int16_t": 16, "int32_t": 32, "int": 32, "int64_t": 64, "long": 64, "long long": 64, "std::int32_t": 32, "std::int64_t": 64}
+
+
+def rule_zigzag_width(out, tier):
+    rid = "ZZ1"
+    out.rule(rid, "coded_stream.h: every zig-zag encoder folds the sign with an arithmetic shift by (bit width of its argument type - 1): 31 for int32_t, 63 for int64_t; "
+                  "in a template the shift amount is computed from the type, not a literal", 1)
+    roots, rc, err = dump(out.repo, "coded_stream.h")
+    rel = BIN + "/coded_stream.h"
+    if rc != 0 or not roots:
+        out.undecided(rid, "clang/coded_stream.h", rel, "clang could not parse the header: " + err[-300:])
+        return
+    for r in roots:
+        annotate_lines(r)
+    n = 0
+    seen = set()
+    for r in roots:
+        for fn in walk(r):
+            if fn.get("kind") not in ("FunctionDecl", "CXXMethodDecl") or "ZigZagEncode" not in (fn.get("name") or "") or body_of(fn) is None:
+                continue
+            if (fn.get("name"), fn.get("_line", 0)) in seen:
+                continue
+            seen.add((fn.get("name"), fn.get("_line", 0)))
+            ps = params_of(fn)
+            if len(ps) != 1:
+                continue
+            pname = ps[0].get("name")
+            ptype = ((ps[0].get("type") or {}).get("qualType", "")).replace("const", "").replace("&", "").strip()
+            for x in walk(body_of(fn)):
+                if x.get("kind") != "BinaryOperator" or x.get("opcode") != ">>":
+                    continue
+                inner = [c for c in (x.get("inner") or []) if isinstance(c, dict)]
+                if len(inner) != 2 or txt(inner[0]).strip("() ") != pname:
+                    continue
+                n += 1
+                amount = txt(inner[1]).strip("() ")
+                key = "%s(%s)/sign shift" % (fn.get("name"), ptype)
+                posn = "%s:%d" % (rel, x.get("_line", fn.get("_line", 0)))
+                if ptype in _SIGNED_BITS:
+                    want = str(_SIGNED_BITS[ptype] - 1)
+                    out.check(amount == want, rid, key, posn, "shifts by %s" % want,
+                              "the sign of a %s is folded with `>> %s` instead of `>> %s`: values whose magnitude does not fit in %s bits are encoded as a different number" % (ptype, amount, want, amount))
+                else:
+                    out.check(not amount.isdigit(), rid, key, posn, "the shift amount depends on the argument type",
+                              "the encoder is a template over the integer type but folds the sign with the literal `>> %s`: right for one width only — for the other instantiations "
+                              "(int64_t when the literal is 31) every value of larger magnitude is mis-encoded" % amount)
+    if n == 0:
+        out.undecided(rid, "anchor/ZigZagEncode", rel, "no zig-zag encoder with a sign shift found")
+
+
+def rule_no_swallowed_eof(out, tier):
+    rid = "CB6"
+    out.rule(rid, "binary runtime headers: the end-of-stream exception propagates — no routine of coded_stream.h, serializers.h, header.h or reader_writer.h catches "
+                  "it (or catches everything) without rethrowing: a truncated stream must not look like a complete one", 1)
+    roots, rc, err = dump(out.repo, "reader_writer.h")
+    rel = BIN
+    if rc != 0 or not roots:
+        out.undecided(rid, "clang/reader_writer.h", rel, "clang could not parse the headers: " + err[-300:])
+        return
+    for r in roots:
+        annotate_lines(r)
+    nfn, ntry = 0, 0
+    seen = set()
+    for r in roots:
+        for n in walk(r):
+            if n.get("kind") not in ("FunctionDecl", "CXXMethodDecl", "CXXConstructorDecl", "CXXDestructorDecl"):
+                continue
+            b = body_of(n)
+            if b is None:
+                continue
+            fkey = (n.get("name"), n.get("_line", 0))
+            if fkey in seen:
+                continue
+            seen.add(fkey)
+            nfn += 1
+            for x in walk(b):
+                if x.get("kind") != "CXXCatchStmt":
+                    continue
+                ntry += 1
+                inner = [c for c in (x.get("inner") or []) if isinstance(c, dict)]
+                caught = ""
+                for c in inner:
+                    if c.get("kind") == "VarDecl":
+                        caught = (c.get("type") or {}).get("qualType", "")
+                rethrows = any(y.get("kind") == "CXXThrowExpr" for y in walk(x))
+                swallow_eof = (caught == "" or "EndOfStream" in caught or "std::exception" in caught or "runtime_error" in caught) and not rethrows
+                out.check(not swallow_eof, rid, "%s/catch %s" % (n.get("name"), caught or "..."), "%s:%d" % (rel, x.get("_line", n.get("_line", 0))),
+                          "the handler rethrows or cannot catch the end-of-stream exception",
+                          "%s catches %s without rethrowing: reaching the end of the input inside this routine is reported to the caller as a normal result "
+                          "(end of the stream step / a complete value) instead of EndOfStreamException" % (n.get("name"), caught or "every exception"))
+    out.ok(rid, "anchor/functions scanned", rel, "%d function bodies of the binary runtime headers scanned, %d catch handlers" % (nfn, ntry)) if nfn >= 20 else \
+        out.undecided(rid, "anchor/functions scanned", rel, "only %d function bodies found: the headers were not seen" % nfn)
+
+
 RULES = {
-    "C16": [rule_coded_stream_bounds, rule_blocks, rule_fill_loops_end, rule_stream_reads_counted],
-    "C01": [rule_coded_stream_bounds, rule_serializer_twins, rule_output_order, rule_reader_overwrites, rule_trivial_trait_set, rule_blocks],
+    "C16": [rule_coded_stream_bounds, rule_blocks, rule_fill_loops_end, rule_stream_reads_counted, rule_no_swallowed_eof],
+    "C01": [rule_coded_stream_bounds, rule_serializer_twins, rule_output_order, rule_reader_overwrites, rule_trivial_trait_set, rule_blocks, rule_zigzag_width],
     "C15": [rule_cxx_header],
     "C04": [rule_cxx_header, rule_output_order],
     "C03": [rule_output_order, rule_reader_overwrites],
